@@ -99,6 +99,7 @@ def c_op(o):
         ro = "None" if opt is None else "(Some {| ro_match := %s; ro_invoke := %s |})" % (
             c_opt(opt["match"]), c_opt(opt["invoke"]))
         return f"COp (ARegister {o[1]} {ro})"
+    if n == "react": return f"CReact {o[1]} ({c_op(o[2])})"
     if n == "inline":
         r = c_op(o[2])
         assert r.startswith("COp ")
@@ -220,7 +221,7 @@ def c_endstate(r):
 def c_case(fw, cfg, ops, res):
     return "(%s, %s,\n %s,\n %s,\n %s)" % (
         {"tx": "Tx", "aio": "Aio"}[fw], c_cfg(cfg), c_list(ops, c_op),
-        c_list(res["trace"], lambda evs: c_list(evs, c_event)), c_endstate(res))
+        c_list(res["trace"], lambda evs: c_list([e for e in evs if e[0] != "reenter"], c_event)), c_endstate(res))
 
 
 # ------------------------------------------------------------------------------------------------------------------
@@ -281,9 +282,28 @@ class Shadow:
         return p
 
 
+def gen_react_api(rng, sh):
+    """the API call a re-entering callback issues"""
+    k = rng.choice(["call", "call", "publish", "subscribe", "register", "unregister"])
+    if k == "call": return ["call", rng.randrange(1, 6), [], [], None]
+    if k == "publish": return ["publish", rng.randrange(1, 6), [], [], {"ack": True, "excl": None}]
+    if k == "subscribe": return ["subscribe", rng.randrange(1, 6), None]
+    if k == "register": return ["register", rng.randrange(1, 6), None]
+    return ["unregister", rng.choice(sh.reg_futs) if sh.reg_futs else 0]
+
+
+def gen_react_op(rng, sh):
+    """user code attaches a callback that re-enters the API to a (probably) pending future"""
+    js = [p[2] for p in sh.pending if p[2] is not None]
+    j = rng.choice(js) if js and rng.random() < 0.9 else rng.randrange(0, max(1, sh.nret + 1))
+    return ["react", j, gen_react_api(rng, sh)]
+
+
 def gen_api_op(rng, sh):
     k = rng.choice(["call", "call", "call", "publish", "publish", "subscribe", "register", "unsubscribe", "unregister",
-                    "cancel"])
+                    "cancel", "react", "react"])
+    if k == "react":
+        return gen_react_op(rng, sh)
     if k == "call":
         a, kw = gen_api_payload(rng)
         opt = None
@@ -575,11 +595,14 @@ def expand_inline(ops, trace, v):
         k = next((i for i, e in enumerate(evs) if e[0] == "sent" and e[1][0] in REQUEST_MSGS), None)
         if k is None:
             o2.append(api); t2.append(evs); continue          # nothing was sent: the reply was never delivered
-        a_evs = [evs[k]] + [e for e in evs if e[0] in ("apiret", "apiraised")]
-        r_evs = [e for i, e in enumerate(evs) if i != k and e[0] not in ("apiret", "apiraised")]
-        if any(e[0] == "apiraised" for e in evs):
+        # the API call's own return is the last apiret/apiraised of the op (callbacks fired by the reply may re-enter
+        # the API and log their own returns before it)
+        last = max(i for i, e in enumerate(evs) if e[0] in ("apiret", "apiraised"))
+        a_evs = [evs[k], evs[last]]
+        r_evs = [e for i, e in enumerate(evs) if i not in (k, last)]
+        if evs[last][0] == "apiraised":
             v.append((f"{api[0]}/reply-during-send/api-raised",
-                      f"{api} raised {[e[1] for e in evs if e[0] == 'apiraised']} because its reply {reply} arrived inside send()"))
+                      f"{api} raised {evs[last][1]} because its reply {reply} arrived inside send()"))
         o2 += [api, reply]; t2 += [a_evs, r_evs]
     return o2, t2
 
@@ -610,9 +633,10 @@ def oracle_c04(fw, cfg, ops, res):
             if m[1] != nreq or not (1 <= m[1] <= 2 ** 53):
                 v.append(("ids/not-sequential", f"request #{nreq} carries id {m[1]} at op {i}"))
         # ---- one message per API call, faithful content ----
+        own = evs[:next((i for i, e in enumerate(evs) if e[0] == "reenter"), len(evs))]
         if name in ("call", "publish", "subscribe", "register"):
-            ret = [e for e in evs if e[0] == "apiret"]
-            ok_sent = [e[1] for e in evs if e[0] == "sent" and e[1][0] in REQUEST_MSGS]
+            ret = [e for e in own if e[0] == "apiret"]
+            ok_sent = [e[1] for e in own if e[0] == "sent" and e[1][0] in REQUEST_MSGS]
             if ret:
                 if len(ok_sent) != 1 or ok_sent[0][0] != name:
                     if not any(e[0] == "dropped" for e in evs):
@@ -642,11 +666,23 @@ def oracle_c04(fw, cfg, ops, res):
                         reqs[(name, m[1])] = {"j": j, "details": o.get("details"), "open": True, "reply": None}
                         by_j[j] = (name, m[1])
         if name in ("unsubscribe", "unregister"):
-            ret = [e for e in evs if e[0] == "apiret"]
-            ok_sent = [e[1] for e in evs if e[0] == "sent" and e[1][0] == name]
+            ret = [e for e in own if e[0] == "apiret"]
+            ok_sent = [e[1] for e in own if e[0] == "sent" and e[1][0] == name]
             if ret and ok_sent:
                 reqs[(name, ok_sent[0][1])] = {"j": ret[0][1], "open": True, "reply": None}
                 by_j[ret[0][1]] = (name, ok_sent[0][1])
+        # ---- requests issued by callbacks that re-enter the API (retry idiom): [reenter, sent m, apiret j] ----
+        for k0, e0 in enumerate(evs):
+            if e0[0] != "reenter": continue
+            m = None
+            for e in evs[k0 + 1:]:
+                if e[0] == "reenter": break
+                if e[0] == "sent" and e[1][0] in REQUEST_MSGS: m = e[1]
+                if e[0] in ("apiret", "apiraised"):
+                    if e[0] == "apiret" and e[1] is not None and m is not None:
+                        reqs[(m[0], m[1])] = {"j": e[1], "details": None, "open": True, "reply": None}
+                        by_j[e[1]] = (m[0], m[1])
+                    break
         # ---- escaping exceptions ----
         for e in evs:
             if e[0] == "raised" and e[1] != "ProtocolError" and not (e[1] == "TransportLost" and name == "goodbye"):
